@@ -97,6 +97,8 @@ class SimLock:
         me.blocked_on = None
         self.owner = me
         self.acquisitions += 1
+        # holding a lock is where lock-order inversions and lost updates need the other thread to run
+        s.after_acquire(me, self)
         return True
 
     def release(self):
@@ -239,6 +241,17 @@ class Scheduler:
                 self._switch_random(me, "shared")
 
     _burst_left = 0
+
+    def after_acquire(self, me: SimThread, lock):
+        if self.replay is not None:
+            self.total_events += 1
+            self._replay_point(me, "lock")
+            return
+        p = self.strategy.get("p_after_acquire", 0.0)
+        self.total_events += 1
+        if p and self.rng.random() < p:
+            self.probes["switch_while_holding_lock"] = self.probes.get("switch_while_holding_lock", 0) + 1
+            self._switch_random(me, "lock")
 
     def _runnable(self, exclude=None):
         return [t for t in self.threads if not t.done and t.blocked_on is None and t is not exclude and t.started]
